@@ -241,6 +241,21 @@ fn is_end_word(s: &Sess) -> bool {
     !sg.mac3() && !sg.mac2() && sg.mac1() && sg.mac0() && sg.na0()
 }
 
+/// IEF as it will be when the first end word after now is left (observed on a copy).
+fn ie_at_next_sample(s: &Sess) -> bool {
+    use emulator_2a_lib::machine::RegisterNumber as RN;
+    let mut probe = Sess { m: s.m.clone(), last_edge: None, last_panicked: false };
+    for _ in 0..3000 {
+        let st = probe.m.verif_state();
+        if is_end_word(&probe) && !st.pending_wait_for_memory && probe.m.state() == emulator_2a_lib::machine::State::Running {
+            let fr = if st.pending_register_write == Some(4) { st.alu_output.0 } else { *probe.m.registers().get(RN::R4) };
+            return fr & 0x08 != 0;
+        }
+        probe.m.raw_mut().trigger_clock_edge();
+    }
+    false
+}
+
 pub fn run_c04(out: &mut Out, seed: u64, thorough: bool) {
     use emulator_2a_lib::machine::RegisterNumber as RN;
     let mut rng = Rng::new(seed);
@@ -305,7 +320,37 @@ pub fn run_c04(out: &mut Out, seed: u64, thorough: bool) {
             out.count(if micr && ie_at_sample { "taken" } else if micr { "dropped" } else { "disabled" });
             t += stride;
         }
-        // two triggers at pairs of cycles in a window
+        // two key presses: the first at any cycle (also while the request will be dropped), the second
+        // 250 edges later (after the first one has been taken and served, or dropped)
+        let step = if thorough { 1 } else { 3 };
+        let mut t1 = (seed % 3) as usize;
+        while t1 <= t_total {
+            let mut s = Sess::new();
+            run_line(out, &mut s, "new");
+            run_line(out, &mut s, &load);
+            run_line(out, &mut s, &format!("edges {}", t1));
+            let micr1 = s.m.bus().is_key_edge_int_enabled();
+            let ie1 = ie_at_next_sample(&s);
+            run_line(out, &mut s, "irq");
+            run_line(out, &mut s, "edges 250");
+            run_line(out, &mut s, "d");
+            let micr2 = s.m.bus().is_key_edge_int_enabled();
+            let ie2 = ie_at_next_sample(&s);
+            run_line(out, &mut s, "irq");
+            run_line(out, &mut s, "d");
+            run_line(out, &mut s, "edges 250");
+            run_line(out, &mut s, "d");
+            settle(&mut s, spin);
+            let count = s.m.bus().memory()[CNT as usize];
+            let transparent = arch_view(&s) == reference;
+            out.emit(
+                &format!("spec.c04two {} {} {} {}", micr1 as u8, ie1 as u8, micr2 as u8, ie2 as u8),
+                &format!("count={} transparent={}", count, transparent as u8),
+            );
+            out.count("two-presses");
+            t1 += step;
+        }
+        // two triggers at pairs of cycles in a short window: at most two entries, still transparent
         let window = if thorough { 40 } else { 12 };
         let start = t_total / 2;
         for a in 0..window {
